@@ -3,6 +3,7 @@ package sim
 import (
 	"fmt"
 	"sort"
+	"sync/atomic"
 	"time"
 
 	"github.com/weedbox/pokertable"
@@ -36,6 +37,8 @@ func (s *Sim) inHand() bool {
 }
 
 func (s *Sim) runOp(o *OpRec, f func() error) *OpRec {
+	atomic.AddInt64(&s.opSeq, 1)
+	defer atomic.AddInt64(&s.opSeq, 1)
 	o.Before = s.Now()
 	o.InHand = s.inHand()
 	func() {
